@@ -182,7 +182,14 @@ func (e *evil) refPeer(victim string, version int, st, rt uint32, cur *world.Sec
 	send("smp-abort-last", 1, ref.JoinPlain(nil, []ref.TLV{{Type: 6, Value: nil}}))
 	// the victim answers; the decoder (reference) must be able to read it with E's keys
 	w.Send(p, 8005)
-	send("disconnect-last", 1, ref.JoinPlain(nil, []ref.TLV{{Type: 1, Value: nil}}))
+	// records of a type this implementation does not know (another client's extension) in front of ones it
+	// does know: every record of a message is looked at
+	send("unknown-then-extra-key", 1, ref.JoinPlain(nil, []ref.TLV{{Type: 0x7777, Value: []byte("future")}, {Type: 9, Value: nil}, {Type: 8, Value: []byte{0, 0, 0, 9, 'u', 's', 'e'}}}))
+	if int(ctr+uint64(version)+uint64(len(name)))%2 == 0 {
+		send("disconnect-last", 1, ref.JoinPlain(nil, []ref.TLV{{Type: 1, Value: nil}}))
+	} else {
+		send("unknown-then-disconnect", 1, ref.JoinPlain(nil, []ref.TLV{{Type: 0x7777, Value: []byte("future")}, {Type: 1, Value: nil}}))
+	}
 	w.Send(p, 8006)
 }
 
